@@ -287,14 +287,20 @@ def one_job(pid, tier, seed, job, bins, only=None):
     return st, outs, table, jkey, tag
 
 
-def trace_props(op, why):
+def trace_props(op, why, viol=None):
     """properties a rejected event contradicts: `why` names the group of conjuncts of Trace.tla that failed"""
     if why == "PANIC":
         return {"C04"}
     if why in ("WF", "CHAIN"):
         return {"C05", "C03"}
     if why == "VIOL":
-        return {"C02"}
+        # what the instruments saw during the call: the harness' own notes name their properties
+        # ("[C06] 1 allocator call ..."); ledger findings (double destruction, dead data) are C02
+        props = set()
+        for v in viol or []:
+            m = re.match(r"\[([C0-9,]+)\]", v)
+            props |= set(m.group(1).split(",")) if m else {"C02"}
+        return props or {"C02"}
     n = op.get("name", "")
     if n in ("insert", "insert_key_value", "checked_insert"):
         return {"C01", "C12", "C03"}
@@ -389,7 +395,7 @@ def trace_job(pid, tier, seed, job, bins, tag, jkey):
             except Exception:
                 pass
             mw = re.search(r'"REJECTED-AT",\s*\d+,\s*"(\w+)"', q.stdout)
-            props = trace_props((ev or {}).get("o", {}), mw.group(1) if mw else "ALLOW") if ev else {"CRASH"}
+            props = trace_props((ev or {}).get("o", {}), mw.group(1) if mw else "ALLOW", (ev or {}).get("viol")) if ev else {"CRASH"}
             why = "the harness died while recording" if crashed and ev is None else "TLC rejects event %d of the recorded execution: it is not a step the specification (Dict.tla) allows" % depth
             errs = [l for l in q.stdout.splitlines() if l.startswith("Error:") or "REJECTED" in l]
             for pr in props:
@@ -553,11 +559,11 @@ def jobs_for(pid, tier):
                     [micro("ma-set-n%d" % n, "set", True, n, [1], SFAM) for n in (0, 1, 2, 3)]
     else:
         micro_inject = [micro("mi-map-n%d" % n, "map", False, n, [1, 2, 3], MFAM, MaxJ=3, MaxItems=3) for n in (0, 1, 2)] + \
-                       [micro("mi-map-n3", "map", False, 3, [1, 2, 3, 4], MFAM, MaxJ=3, MaxItems=3)] + \
+                       [micro("mi-map-n3", "map", False, 3, [1, 2, 3, 4], [f for f in MFAM if f != "binary"], MaxJ=3, MaxItems=3)] + \
                        [micro("mi-map-n4", "map", False, 4, [1, 2, 3, 4, 5], ["core", "entry", "unchecked", "cursor", "clone"])] + \
                        [micro("mi-set-n4", "set", False, 4, [1, 2, 3, 4, 5], ["core", "cursor", "clone"])] + \
                        [micro("mi-set-n%d" % n, "set", False, n, [1, 2, 3], SFAM, MaxItems=3) for n in (0, 1, 2)] + \
-                       [micro("mi-set-n3", "set", False, 3, [1, 2, 3, 4], SFAM, MaxItems=4)]
+                       [micro("mi-set-n3", "set", False, 3, [1, 2, 3, 4], [f for f in SFAM if f != "binary"], MaxItems=4)]
         micro_adv = [micro("ma-map-n%d" % n, "map", True, n, [1], MFAM, MaxJ=4, MaxItems=4) for n in (0, 1, 2, 3, 4)] + \
                     [micro("ma-set-n%d" % n, "set", True, n, [1], SFAM, MaxItems=4) for n in (0, 1, 2, 3, 4)]
 
@@ -612,11 +618,11 @@ def jobs_for(pid, tier):
                + pairs("eqset", ["eq"], "set", qcaps if q else tcaps) + pairs("eqmap", ["eq"], "map", qcaps[:2] if q else tcaps[:9]),
         "C15": shaped(both("clone", ["clone"])) + both("setclone", ["clone"], mode="set"),
         "C20": both("serde", ["serde"]) + both("setserde", ["serde"], mode="set"),
-        "C06": prof(shaped(core), *([] if q else ["stdfeat"])) + both("cursor", ["cursor"]) + both("efdc", ["entry", "fmt", "disjoint", "clone", "unchecked"], consts={"Vers": [0]})
+        "C06": tbig + prof(shaped(core), *([] if q else ["stdfeat"])) + both("cursor", ["cursor"]) + both("efdc", ["entry", "fmt", "disjoint", "clone", "unchecked"], consts={"Vers": [0]})
                + shaped(setcore) + both("setclone", ["clone"], mode="set")
                + shaped(both("bulk", ["bulk"], bigconsts={"MaxExtra": 1})) + shaped(both("setbulk", ["bulk"], mode="set", consts={"MaxExtra": 1}, bigconsts={"Vers": [0]}))
                + pairs("alg", ["algebra", "eq"], "set", qcaps[:2] if q else tcaps[:8]) + pairs("eqmap", ["eq"], "map", qcaps[:1] if q else tcaps[:4]),
-        "C04": tinj + micro_inject + [dict(j, sweep="inject") for j in
+        "C04": tinj + micro_inject + ([] if q else micro_bin) + [dict(j, sweep="inject") for j in
                 both("core", ["core"]) + both("cef", ["cursor", "entry", "fmt", "unchecked"], consts={"Vers": [0]})
                 + both("bulkclone", ["bulk", "clone"], bigconsts={"MaxExtra": 1, "Vers": [0]})
                 + setcore + both("setbc", ["bulk", "clone"], mode="set", consts={"MaxExtra": 1}, bigconsts={"Vers": [0]})]
